@@ -47,7 +47,15 @@ def compare(kind, enum, accept, S, n, obj, with_generate=True):
 
 
 def run_dfa(case):
-    return compare("dfa", dfa_words_up_to_n, dfa_accepts_word, case["dfa"]["S"], case["n"], B.mk_dfa(case["dfa"]))
+    D = B.mk_dfa(case["dfa"])
+    res = None
+    for n in case.get("ns", [case["n"]]):        # several bounds on the same object
+        r = compare("dfa", dfa_words_up_to_n, dfa_accepts_word, case["dfa"]["S"], n, D)
+        if res is None or (r["nt"] and not res["nt"]):
+            res = r
+    if "ns" in case:
+        res["cls"] = res["cls"] + ["routes_of_different_length"]
+    return res
 
 
 def run_nfa(case):
@@ -94,6 +102,9 @@ def run_pda(case):
         within = all(max(RP.closure_sizes(spec, w, limit)) <= limit for w in ws)
         if not within:
             n = min(n, 2)      # the number of configurations grows geometrically per level under a truncated closure
+            eps = spec["eps"]
+            if sum(1 for p, a, u, q, v in spec["d"] if a == eps and u == eps and v != eps) >= 2:
+                n = min(n, 1)  # several pushing eps-moves: the truncated closures branch, level 2 already takes minutes in the library
         if not within and limit > 30:
             # cost bound: with a truncated closure of ~1000 long-stack configurations per step the enumerator needs
             # minutes; the soundness-only assertion is the same for every limit, so it is exercised with limit 30
@@ -126,12 +137,17 @@ def run_wordset(case):
 
 @st.composite
 def dfa_cases(draw, tier):
-    return {"dfa": draw(G.dfa_specs(max_states=5, max_sigma=2)), "n": draw(bounds)}
+    if draw(st.integers(0, 3)) == 0:
+        # several routes of different lengths to acceptance, transition map inserted route by route (front-to-back or back-to-front)
+        spec = draw(G.routes_dfa_specs())
+        top = 7 if len(spec["S"]) == 2 else 5
+        return {"dfa": spec, "n": top, "ns": list(range(top, 1, -1)) if draw(st.booleans()) else list(range(2, top + 1))}
+    return {"dfa": draw(G.dfa_specs(max_states=5, max_sigma=2, odd=True)), "n": draw(bounds)}
 
 
 @st.composite
 def nfa_cases(draw, tier):
-    return {"nfa": draw(G.nfa_specs(max_states=4, max_sigma=2)), "n": draw(bounds)}
+    return {"nfa": draw(G.nfa_specs(max_states=4, max_sigma=2, odd=True)), "n": draw(bounds)}
 
 
 @st.composite
@@ -167,7 +183,7 @@ def tm_cases(draw, tier):
 
 @st.composite
 def pda_cases(draw, tier):
-    spec = draw(GP.mixed_pda_specs(max_states=3, max_trans=6))
+    spec = draw(GP.mixed_pda_specs(max_states=3, max_trans=6, odd=True))
     if not spec["F"] and draw(st.booleans()):
         spec["F"] = [spec["Q"][-1]]
     return {"pda": spec, "n": draw(st.sampled_from([0, 1, 2, 3])), "limit": draw(st.sampled_from([1, 2, 5, 30, 200] if tier == "quick" else [1, 2, 5, 30, 200, 1000]))}
